@@ -9,7 +9,8 @@ from props.c02 import canon, coq_str, build_server
 OVERLAY = {"agent/zz_verif_common_test.go": "agent/verif_common_test.go",
            "agent/zz_verif_fakeproxy_test.go": "agent/verif_fakeproxy_test.go",
            "agent/zz_verif_e2e_test.go": "agent/verif_e2e_test.go",
-           "agent/zz_verif_c03_test.go": "agent/verif_c03_test.go"}
+           "agent/zz_verif_c03_test.go": "agent/verif_c03_test.go",
+           "agent/zz_verif_chunked_test.go": "agent/verif_chunked_test.go"}
 HOP = {"Connection", "Keep-Alive", "Proxy-Authenticate", "Proxy-Authorization", "Te", "Trailer", "Transfer-Encoding", "Upgrade"}
 DONTCARE = {"Proxy-Connection"}
 
@@ -17,7 +18,7 @@ DONTCARE = {"Proxy-Connection"}
 class C03(Prop):
     pid = "C03"
     props_file = "Props/C03.v"
-    model_targets = ["theories/Agent/RespPathCheck.vo"]
+    model_targets = ["theories/Agent/RespPathCheck.vo", "theories/Codec/ChunkedCheck.vo"]
     technique = "Coq proofs over all backend responses for status / interim 1xx / header forwarding through the modelled response writer and proxy relay (tables regenerated from the source) and for the trailer announcement round trip; end-to-end differential run with a scripted raw HTTP/1.1 backend and an h2c backend, under the race detector"
     level_text = ("C03_status_and_headers proves for every backend response (any final status outside 1xx, any fields incl. repeated ones, any number of interim 1xx responses, any trailers) that the client gets the final status and exactly the backend's "
                   "values for every end-to-end field and never a hop-by-hop field; C03_trailer_announcement proves that the response writer pre-declares exactly the announced trailer names for any number of names. C03_trailers proves trailer delivery as a whole: "
@@ -46,7 +47,11 @@ class C03(Prop):
                 b[k] = b.get(k) or []
             r["client"]["header"] = r["client"].get("header") or {}
             r["client"]["trailer"] = r["client"].get("trailer") or {}
-        return {"cases": cases, "races": races, "proxy_races": [r for r in rows if r.get("kind") == "race"]}
+        rc, out, p2, dt = C.go_test_overlay(ctx.work, "./agent/", "TestVerifChunked$", OVERLAY, "chunked.jsonl", ctx.seed, ctx.tier, timeout=900)
+        chunked = [r for r in C.read_jsonl(p2) if r.get("kind") == "chunked"]
+        if rc != 0 or not chunked:
+            raise RuntimeError("C03 chunked-coding harness did not run: rc=%s\n%s" % (rc, out[-2000:]))
+        return {"cases": cases, "races": races, "proxy_races": [r for r in rows if r.get("kind") == "race"], "chunked": chunked}
 
     @staticmethod
     def has_body(b):
@@ -134,7 +139,31 @@ class C03(Prop):
                 mism.append(("RespPathCheck.c03_check", {1: "final status differs from the model's", 2: "header values differ from the model's", 3: "trailers differ from the model's", 4: "the model produces no response"}.get(code, str(code)),
                              {"backend_response": r["backend"], "client_received": r["client"]}))
             total += len(items[s0:s0 + shard])
-        return mism, total, {"coqc_s": round(dt_all, 2), "cases": total}
+        # net/http's chunked writer and reader against Codec/Chunked.v
+        def rle(hx):
+            b = bytes.fromhex(hx)
+            out, i = [], 0
+            while i < len(b):
+                j = i
+                while j < len(b) and b[j] == b[i]:
+                    j += 1
+                out.append("(%d, %d)" % (b[i], j - i))
+                i = j
+            return C.llit(out)
+        ch = obs.get("chunked") or []
+        citems = ["chunked_case_ok %s %s %s %s" % (C.llit(rle(w) for w in (r.get("writes") or [])), C.llit(str(x) for x in bytes.fromhex(r["trailer"])), rle(r["wire"]),
+                                                   C.llit("(%d, %s)" % (c["k"], C.blit(c["complete"])) for c in r["cuts"])) for r in ch]
+        bad, cdt = C.eval_bool_items(ctx.work, "cases_c03_chunked", ["From Coq Require Import List Bool Arith ZArith.", "From IP Require Import Codec.Chunked Codec.ChunkedCheck Lib.Util.", "Import ListNotations."], citems, shard=200)
+        if bad is None:
+            return [("cases_c03_chunked.v (model evaluation)", "coqc failed: " + cdt[-600:], {})], total, {}
+        for i in bad:
+            r = ch[i]
+            mism.append(("ChunkedCheck.chunked_case_ok", "net/http's chunked writer/reader and Codec/Chunked.v disagree (encoding, decoding or the verdict on a truncated prefix)",
+                         {"writes_hex": [w[:80] for w in (r.get("writes") or [])], "trailer_hex": r["trailer"], "wire_hex_prefix": r["wire"][:200], "cuts": r["cuts"][:20]}))
+        for r in ch:
+            if not r.get("go_roundtrip_ok"):
+                mism.append(("net/http chunked round trip", "Go's own reader did not return what its writer was given", {"writes_hex": [w[:80] for w in (r.get("writes") or [])]}))
+        return mism, total + len(citems), {"coqc_s": round(dt_all + cdt, 2), "cases": total, "chunked_cases": len(citems), "chunked_cut_positions": sum(len(r["cuts"]) for r in ch)}
 
     def coverage(self, ctx, obs):
         rows = obs["cases"]
